@@ -1,5 +1,7 @@
 use brush_parser::ast::{self, CommandPrefixOrSuffixItem};
 use itertools::Itertools;
+#[cfg(feature = "verif-hooks")]
+use crate::verif::tokio_shim as tokio;
 use std::borrow::Cow;
 use std::collections::VecDeque;
 use std::io::Write;
@@ -461,7 +463,10 @@ async fn spawn_pipeline_processes(
         pipe_writers.reserve_exact(pipeline_len - 1);
 
         for _ in 0..(pipeline_len - 1) {
+            #[cfg(not(feature = "verif-hooks"))]
             let (reader, writer) = std::io::pipe()?;
+            #[cfg(feature = "verif-hooks")]
+            let (reader, writer) = crate::verif::pipe("pipeline")?;
             pipe_readers.push(Some(reader.into()));
             pipe_writers.push(Some(writer.into()));
         }
@@ -729,8 +734,14 @@ impl Execute for ast::CoprocessCommand {
         }
 
         // Set up the pipes that we'll use to communicate with the coprocess.
+        #[cfg(not(feature = "verif-hooks"))]
         let (stdin_reader, stdin_writer) = std::io::pipe()?;
+        #[cfg(not(feature = "verif-hooks"))]
         let (stdout_reader, stdout_writer) = std::io::pipe()?;
+        #[cfg(feature = "verif-hooks")]
+        let (stdin_reader, stdin_writer) = crate::verif::pipe("coproc_stdin")?;
+        #[cfg(feature = "verif-hooks")]
+        let (stdout_reader, stdout_writer) = crate::verif::pipe("coproc_stdout")?;
 
         // Allocate new fds in the (parent) shell for the read end of the coprocess's stdout
         // and the write end of the coprocess's stdin.
@@ -1917,7 +1928,10 @@ fn setup_process_substitution(
     child_params.process_group_policy = ProcessGroupPolicy::SameProcessGroup;
 
     // Set up pipe so we can connect to the command.
+    #[cfg(not(feature = "verif-hooks"))]
     let (reader, writer) = std::io::pipe()?;
+    #[cfg(feature = "verif-hooks")]
+    let (reader, writer) = crate::verif::pipe("procsubst")?;
     let (reader, writer) = (reader.into(), writer.into());
 
     let target_file = match kind {
